@@ -68,6 +68,14 @@ def h_deep(c):
     return Sum(SelectMany(c.jets, lambda r: Select(r.trks, lambda t: t.pt + c.met)))
 
 
+def h_comp(a):
+    return Sum([a.pt for a in a.trks])
+
+
+def h_comp2(c):
+    return Sum([a.pt + c.pt for a in c.trks])
+
+
 def h_d3(x, y=2, z=7):
     return x * 100 + (y * 10 + z)
 '''
